@@ -582,6 +582,59 @@ impl Bdd {
     }
 }
 
+/// Read-only copy of the internal memo and bookkeeping tables of a [`Bdd`], only available for verification builds.
+#[cfg(adf_obdd_verif)]
+#[derive(Debug, Clone, Default)]
+pub struct VerifDump {
+    /// unique table
+    pub cache: Vec<(BddNode, Term)>,
+    /// if-then-else memo table
+    pub ite_cache: Vec<((Term, Term, Term), Term)>,
+    /// restrict memo table
+    pub restrict_cache: Vec<((Term, Var, bool), Term)>,
+    /// variable lists per node (only with feature `variablelist`)
+    pub var_deps: Option<Vec<Vec<Var>>>,
+    /// count cache
+    pub count_cache: Vec<(Term, CountNode)>,
+}
+
+#[cfg(adf_obdd_verif)]
+impl Bdd {
+    /// Copies the internal memo and bookkeeping tables, sorted by key.
+    pub fn verif_dump(&self) -> VerifDump {
+        let mut result = VerifDump {
+            cache: self.cache.iter().map(|(k, v)| (*k, *v)).collect(),
+            ite_cache: self.ite_cache.iter().map(|(k, v)| (*k, *v)).collect(),
+            restrict_cache: self.restrict_cache.iter().map(|(k, v)| (*k, *v)).collect(),
+            var_deps: None,
+            count_cache: self
+                .count_cache
+                .borrow()
+                .iter()
+                .map(|(k, v)| (*k, *v))
+                .collect(),
+        };
+        #[cfg(feature = "variablelist")]
+        {
+            result.var_deps = Some(
+                self.var_deps
+                    .iter()
+                    .map(|set| {
+                        let mut vars: Vec<Var> = set.iter().copied().collect();
+                        vars.sort();
+                        vars
+                    })
+                    .collect(),
+            );
+        }
+        result.cache.sort();
+        result.ite_cache.sort();
+        result.restrict_cache.sort();
+        result.count_cache.sort_by_key(|(k, _)| *k);
+        result
+    }
+}
+
 #[cfg(test)]
 mod test {
     use super::*;
